@@ -21,7 +21,7 @@ func init() {
 			"parsers' separator constant — exactly what the call-arguments parser inverts. R2 (continuation names): when the Head is a constant it is the protocol name under which the emitting entry point is registered. R3 (index conventions): the minimum " +
 			"argument constants of parser and ledger agree with each other and with the ledger's guards (2; 4; multi pre-guard), the stride constants agree, and for each transfer function and execution side the argument positions the ledger uses for token, " +
 			"nonce, value/payload, destination, attached function and attached arguments — extracted as linear forms a·i + b·n + c over loop index and decoded count — equal those the parser binds to ESDTTokenName, ESDTTokenNonce, ESDTValue, RcvAddr, CallFunction " +
-			"and CallArgs. R4: the destination-side guards accept what the sender side emits (emitted argument count as a linear form versus the pre-guard). R5: destination-side rejections are not decided by argument content. R6: below the three transfer functions no error is dropped (shared with C17-R1): an accepted call has moved all it lists. Does NOT decide: numeric equality of parsed values and ledger diffs; function names containing '@'.",
+			"and CallArgs; given an argument at the position the parser reads the function name from, every successful parser path stores CallFunction (the mirror of the ledger's len(Arguments) > min test). R4: the destination-side guards accept what the sender side emits (emitted argument count as a linear form versus the pre-guard). R5: destination-side rejections are not decided by argument content. R6: below the three transfer functions no error is dropped (shared with C17-R1): an accepted call has moved all it lists. R7: no unsigned 64-bit quantity is encoded through a signed big.Int constructor. Does NOT decide: numeric equality of parsed values and ledger diffs; function names containing '@'.",
 		Trusted: []string{"hex.EncodeToString / hex.DecodeString are inverse", "A-protomsg"},
 		Rules:   []func(*Ctx){c10r1, c10r3, c10r4, c10r5, c10r6, c10r7},
 	})
